@@ -198,6 +198,8 @@ def phases(tier):
               examples=1500 if quick else 40000),
         Phase('random-named-periods', check_case, strategy=strategy(named_periods=True, max_statements=3),
               examples=500 if quick else 10000),
+        Phase('random-large', check_case, strategy=strategy(named_periods=False, blocks=True, max_statements=10, max_leaves=12),
+              examples=150 if quick else 4000),
         Phase('random-function-variable-clash', check_case, strategy=strategy(clash=True, max_statements=2),
               examples=300 if quick else 5000),
     ]
